@@ -2,6 +2,7 @@
    (mesh id, core value, polarization value as integers; the inside test as a truth table mesh × row) -/
 import MagpyVerif.Model.TrimeshBatch
 import MagpyVerif.Model.TrimeshSum
+import MagpyVerif.Model.TrimeshInside
 import Driver.KernFam
 
 namespace Driver.TrimeshFam
@@ -41,6 +42,36 @@ def run : P String := do
         let i := ((rows.zipIdx.find? fun ((_, r'), _) => r'.obs.x.toBits == o.x.toBits && r'.obs.y.toBits == o.y.toBits && r'.obs.z.toBits == o.z.toBits).map (·.2)).getD 0
         bits.getD (m * n + i) 0 == 1
       pure (" ".intercalate ((bhjmTrimesh f meshOf insideFn rs).map out))
+  | "inside" => do
+      -- mask_inside_trimesh for one observer in IEEE double: <nfaces> <faces…> <x>
+      let nf ← nat
+      let fs ← many nf (do pure ((← v3), (← v3), (← v3)))
+      let x ← v3
+      pure s!"{maskInsideTrimesh fs x}"
+  | "box" => do
+      -- mask_inside_enclosing_box for one observer (vertices = all face corners)
+      let nf ← nat
+      let fs ← many nf (do pure ((← v3), (← v3), (← v3)))
+      let x ← v3
+      pure s!"{insideEnclosingBox fs x}"
+  | "lines" => do
+      -- lines_end_in_trimesh for one line: <nfaces> <faces…> <l0> <l1>
+      let nf ← nat
+      let fs ← many nf (do pure ((← v3), (← v3), (← v3)))
+      let l0 ← v3
+      let l1 ← v3
+      pure s!"{linesEndInTrimesh l0 l1 fs}"
+  | "inwards" => do
+      -- is_facet_inwards: <face> <nfaces> <faces…>
+      let f ← (do pure ((← v3), (← v3), (← v3)))
+      let nf ← nat
+      let fs ← many nf (do pure ((← v3), (← v3), (← v3)))
+      pure s!"{isFacetInwards f fs}"
+  | "start" => do
+      -- the start point outside that mask_inside_trimesh hands to lines_end_in_trimesh: <nfaces> <faces…>
+      let nf ← nat
+      let fs ← many nf (do pure ((← v3), (← v3), (← v3)))
+      pure (out (startPointOutside (meshVerts fs)))
   | t => throw s!"unknown trimesh command {t}"
 
 def step (line : String) : String :=
